@@ -216,7 +216,7 @@ Proof.
       rewrite (same_shape_ext _ _ _ _ _ _ E1), (same_shape_ext _ _ _ _ _ _ E2). reflexivity.
   - cbn [fits] in Hf. apply Nat.ltb_lt in Hf.
     destruct (Hvars i x Hf Hx) as (y & Ey & Sy).
-    exists y, []. rewrite app_nil_r. cbn [eval]. rewrite Ey. split; [reflexivity|].
+    exists y, []. rewrite app_nil_r. cbn [eval]. unfold var_value. rewrite Ey. split; [reflexivity|].
     apply leaf_same_shape. exact Sy.
   - cbn [fits frozenset_arg] in Hf. cbn [eval frozenset_arg]. cbn in Hf |- *.
     cbn [wfv] in Hw. apply andb_true_iff in Hw. destruct Hw as [Wh Hw].
